@@ -334,7 +334,7 @@ func newFedKeepOrder(spec *FedSpec, st *Store, r *rand.Rand, extra []gateway.Opt
 	}
 	qf := gateway.QueryerFactory(func(ctx *gateway.PlanningContext, url string) graphql.Queryer { return f.Svcs[url] })
 	f.Cap = &capPlanner{inner: &gateway.MinQueriesPlanner{}}
-	base := []gateway.Option{gateway.WithPlanner(f.Cap), gateway.WithQueryerFactory(&qf), gateway.WithLogger(quietLogger{})}
+	base := []gateway.Option{gateway.WithPlanner(f.Cap), gateway.WithQueryerFactory(&qf), gateway.WithLogger(fedLogger{f})}
 	if spec.HasPrio {
 		base = append(base, gateway.WithLocationPriorities(spec.Priorities))
 	}
